@@ -590,6 +590,15 @@ struct Mixed {
             ctx.st.checks++;
             return true;
         }
+        if (k == "sdfillmode") { // 0: datasets are no longer pre-filled; 1: back to filling (this switch stores the file's description)
+            if (skip_sd)
+                return false;
+            if (!need_sd())
+                return true;
+            MX("SDsetfillmode", SDsetfillmode(sdid, o.arg(0) ? SD_FILL : SD_NOFILL) == FAIL);
+            ctx.probe(o.arg(0) ? "sd-fill-mode-on" : "sd-fill-mode-off");
+            return true;
+        }
         if (k == "sdnew" || k == "sdnew2" || k == "sdwrite" || k == "sdread" || k == "sdattr") {
             if (skip_sd)
                 return false;
@@ -986,6 +995,8 @@ struct MixedGen {
             }
             case 2: { // SD
                 int k = fresh ? 0 : (int)r.below(3);
+                if (r.chance(0.08))
+                    return mkop(0, "sdfillmode", {(int64_t)r.below(2)});
                 if (k == 0 && r.chance(0.4))
                     return mkop(0, "sdnew2", {(int64_t)r.below(5), (int64_t)r.below(3), (int64_t)r.below(6), (int64_t)r.below(5), (int64_t)r.below(7), ds, 0, (int64_t)r.below(5)});
                 if (k == 0)
